@@ -561,15 +561,39 @@ theorem optConstr_sat (vars : List Pid) (score : Pid → Rat) (opt : Rat) (a : A
   rw [h, decide_eq_true_iff, evalLin_map, add_zero]
   rfl
 
+/-- no project left to decide: the only optimal support is the empty one -/
+theorem optSupports_of_no_free (I : Inst) (score : Pid → Rat) (init : List Pid) (hfree : freeVars I init = [])
+    (hinit : I.isFeasible init = true) : optSupports I score init = [[]] := by
+  have hf : I.isFeasible (init ++ []) = true := by rw [List.append_nil]; exact hinit
+  have hval := optValue_eq_of_best I score init [] (List.nil_sublist _) hf (by
+    intro t ht _
+    rw [hfree] at ht
+    rw [List.sublist_nil.1 ht])
+  unfold optSupports
+  rw [hfree]
+  show ([[]] : List (List Pid)).filter _ = [[]]
+  rw [List.filter_cons, List.filter_nil, hf, hval]
+  simp
+
+/-- the number of `optimize()` calls of the irresolute run: none when no project is left to decide, else one per optimum
+    plus the final infeasible one -/
+def expectedCalls (I : Inst) (score : Pid → Rat) (init : List Pid) : Nat :=
+  if (freeVars I init).isEmpty then 0 else (optSupports I score init).length + 1
+
 theorem irresoluteRunFuel_spec (ask : Oracle) (hask : OracleSpec ask) (I : Inst) (score : Pid → Rat)
     (init : List Pid) (hnd : I.projects.Nodup) (hinit : I.isFeasible init = true) (fuel : Nat)
     (hfuel : (optSupports I score init).length ≤ fuel) :
     ∃ L, (irresoluteRunFuel ask I score init fuel).result = .ok L ∧ L.Perm (optSupports I score init) ∧
-      (irresoluteRunFuel ask I score init fuel).programs.length = (optSupports I score init).length + 1 := by
+      (irresoluteRunFuel ask I score init fuel).programs.length = expectedCalls I score init := by
+  by_cases hemp : (freeVars I init).isEmpty = true
+  · unfold irresoluteRunFuel expectedCalls
+    rw [if_pos hemp, if_pos hemp]
+    refine ⟨[[]], rfl, ?_, rfl⟩
+    rw [optSupports_of_no_free I score init (List.isEmpty_iff.1 hemp) hinit]
   have hv := freeVars_nodup I init hnd
   obtain ⟨a₀, ha₀, hfa₀, hval, hmem₀⟩ := base_solve_spec (hask 0) I score init hnd hinit
-  unfold irresoluteRunFuel
-  rw [ha₀]
+  unfold irresoluteRunFuel expectedCalls
+  rw [if_neg hemp, if_neg hemp, ha₀]
   simp only
   have hpos : 1 ≤ (optSupports I score init).length := List.length_pos_of_mem hmem₀
   have inv : LoopInv (freeVars I init) (optSupports I score init)
@@ -758,6 +782,68 @@ theorem bruteSolve_spec : SolverSpec bruteSolve := by
       rw [← hc1]
       exact h1 hb _ (hcand b)
     | some t => rw [hb] at hnone; cases hnone
+
+/-! ### a solver that is only specified on programs with variables (python-mip) -/
+
+/-- complete a solver on the variable-free programs (never posed by the code since the early return) -/
+def patch (solve : Program → Option Assignment) : Program → Option Assignment :=
+  fun P => if P.vars.isEmpty then bruteSolve P else solve P
+
+theorem patch_spec {solve : Program → Option Assignment} (hs : SolverSpecNE solve) : SolverSpec (patch solve) := by
+  intro P
+  unfold patch
+  by_cases h : P.vars.isEmpty = true
+  · rw [if_pos h]; exact bruteSolve_spec P
+  · rw [if_neg h]
+    exact hs P (fun h' => h (List.isEmpty_iff.2 h'))
+
+theorem patch_of_vars {solve : Program → Option Assignment} {P : Program} (h : P.vars ≠ []) : patch solve P = solve P := by
+  unfold patch
+  rw [if_neg (fun h' => h (List.isEmpty_iff.1 h'))]
+
+theorem addCuts_vars (P : Program) (S : List Pid) : (P.addCuts S).vars = P.vars := rfl
+
+/-- the loop only ever poses programs with the variables it started with -/
+theorem loop_congr (ask ask' : Oracle) (vars : List Pid)
+    (h : ∀ k (P : Program), P.vars = vars → ask k P = ask' k P) :
+    ∀ (fuel k : Nat) (P : Program) (prev : List Pid) (all : List (List Pid)) (progs : List Program),
+      P.vars = vars → loop ask fuel k P prev all progs = loop ask' fuel k P prev all progs := by
+  intro fuel
+  induction fuel with
+  | zero => intro k P prev all progs _; rfl
+  | succ f ih =>
+    intro k P prev all progs hP
+    rw [loop, loop, h k (P.addCuts prev) (by rw [addCuts_vars]; exact hP)]
+    cases ask' k (P.addCuts prev) with
+    | none => rfl
+    | some a => exact ih (k+1) (P.addCuts prev) _ _ _ (by rw [addCuts_vars]; exact hP)
+
+theorem baseProgram_vars (I : Inst) (score : Pid → Rat) (init : List Pid) :
+    (baseProgram I score init).vars = freeVars I init := rfl
+
+theorem resolute_patch (solve : Program → Option Assignment) (I : Inst) (score : Pid → Rat) (init : List Pid) :
+    resolute (patch solve) I score init = resolute solve I score init := by
+  unfold resolute
+  by_cases hemp : (freeVars I init).isEmpty = true
+  · rw [if_pos hemp, if_pos hemp]
+  · rw [if_neg hemp, if_neg hemp, patch_of_vars]
+    rw [baseProgram_vars]
+    exact fun h' => hemp (List.isEmpty_iff.2 h')
+
+theorem irresoluteRunFuel_patch (ask : Oracle) (I : Inst) (score : Pid → Rat) (init : List Pid) (fuel : Nat) :
+    irresoluteRunFuel (fun k => patch (ask k)) I score init fuel = irresoluteRunFuel ask I score init fuel := by
+  unfold irresoluteRunFuel
+  by_cases hemp : (freeVars I init).isEmpty = true
+  · rw [if_pos hemp, if_pos hemp]
+  · have hne : freeVars I init ≠ [] := fun h' => hemp (List.isEmpty_iff.2 h')
+    rw [if_neg hemp, if_neg hemp]
+    have h0 : patch (ask 0) (baseProgram I score init) = ask 0 (baseProgram I score init) :=
+      patch_of_vars (by rw [baseProgram_vars]; exact hne)
+    simp only [h0]
+    cases ask 0 (baseProgram I score init) with
+    | none => rfl
+    | some a =>
+      exact loop_congr _ _ (freeVars I init) (fun k P hP => patch_of_vars (by rw [hP]; exact hne)) _ _ _ _ _ _ rfl
 
 /-! ### the canonical form printed by the driver has the same meaning -/
 
